@@ -403,6 +403,11 @@ func (b *BaseStore) Close() error {
 		}
 	}
 
+	// the channels handed out by the legacy API (Subscribe, GlobalChannel) end
+	// with the store: their goroutines and bus subscriptions would otherwise
+	// outlive it, whatever the context they were created under
+	b.UnsubscribeAll()
+
 	// Reset replication statistics
 	b.ReplicationStatus().Reset()
 
